@@ -1238,3 +1238,11 @@ func (c12) Nontrivial(c Tok, obs Tok) bool {
 	}
 	return obs.At(0).Int() == 0
 }
+
+// Names other properties' generators use (go/harness/mux.go builds PES headers for the muxer with them).
+func writableHeader(h *astits.PESHeader) bool { return c12WritableHeader(h) }
+func genSID(r *Rng) uint8                     { return c12GenSID(r) }
+func genOptRandom(r *Rng, writable bool) *astits.PESOptionalHeader {
+	return c12GenOptRandom(r, writable)
+}
+func writableOpt(o *astits.PESOptionalHeader) bool { return c12WritableOpt(o) }
